@@ -75,7 +75,7 @@ def main():
                     else:
                         raise ValueError(act)
                 events.append({"ev": act, "arg": arg or "", "out": "ok", "exc": ""})
-            except Exception as e:  # noqa
+            except BaseException as e:  # noqa  (func_timeout.FunctionTimedOut is a BaseException)
                 events.append({"ev": act, "arg": arg or "", "out": "refused", "exc": "%s: %s" % (type(e).__name__, str(e)[:120])})
         after = other_options()
         status["user_options_unchanged"] = 1 if after == before else 0
@@ -87,7 +87,7 @@ def main():
         else:
             status["dumped"] = 0
         mesh.parallel_map = None
-    except Exception as e:  # noqa
+    except BaseException as e:  # noqa
         status["fatal"] = "%s: %s" % (type(e).__name__, str(e)[:300])
         status["traceback"] = traceback.format_exc()[-2000:]
     status["wall_s"] = round(time.time() - t0, 1)
